@@ -7,6 +7,7 @@ import TrimeshVerif.Props.C04
 import TrimeshVerif.Props.C05
 import TrimeshVerif.Props.C06
 import TrimeshVerif.Props.C07
+import TrimeshVerif.Props.C08
 import TrimeshVerif.Props.C09
 import TrimeshVerif.Props.C10
 import TrimeshVerif.Props.C11
